@@ -51,10 +51,10 @@ def _gen_seq(rng, n, cls, lo, hi, square=False, allow_scalar=True):
     return [rs(one()) for _ in range(n)], False
 
 
-def gen_case(rng, quick=True, proc=None):
+def gen_case(rng, quick=True, proc=None, wrapper=None, x0_mode=None, arrays=False):
     proc = proc or rng.choice(["wiener", "wiener", "iwp", "iwp", "ou", "ou", "gm"])
     cls = rng.choice(["E", "T"]) if proc in ("wiener", "gm") else "T"
-    n = rng.randint(1, 5 if quick else 9)
+    n = rng.randint(2 if arrays else 1, 5 if quick else 9)
     c = dict(proc=proc, cls=cls, N=n, wrapper=False)
     if proc == "gm":
         d = rng.randint(1, 3)
@@ -69,8 +69,8 @@ def gen_case(rng, quick=True, proc=None):
                  x0=[rs(dyadic(rng, -2, 2, 2)) for _ in range(d)],
                  xi=[[rs(dyadic(rng, -2, 2, 2)) for _ in range(d)] for _ in range(n)])
         return c
-    dt, dts = _gen_seq(rng, n, cls, Fraction(1, 4), Fraction(2), square=True)
-    sg, sgs = _gen_seq(rng, n, cls, Fraction(1, 4), Fraction(2))
+    dt, dts = _gen_seq(rng, n, cls, Fraction(1, 4), Fraction(2), square=True, allow_scalar=not arrays)
+    sg, sgs = _gen_seq(rng, n, cls, Fraction(1, 4), Fraction(2), allow_scalar=not arrays)
     c.update(dt=dt, dt_scalar=dts, sigma=sg, sigma_scalar=sgs)
     d = 2 if proc == "iwp" else 1
     if proc == "iwp":
@@ -82,12 +82,12 @@ def gen_case(rng, quick=True, proc=None):
         else:
             c.update(asp=[rs(Fraction(rng.uniform(0.0, 2.0))) for _ in range(n)], asp_mode="array")
     if proc == "ou":
-        ga, gas = _gen_seq(rng, n, "T", Fraction(1, 10), Fraction(3))
+        ga, gas = _gen_seq(rng, n, "T", Fraction(1, 10), Fraction(3), allow_scalar=not arrays)
         c.update(gamma=ga, gamma_scalar=gas)
-    c["wrapper"] = rng.random() < 0.35
+    c["wrapper"] = (rng.random() < 0.35) if wrapper is None else wrapper
     if c["wrapper"]:
         # x0 of the wrapper: fixed value, (mean,std) prior, or (OU only) None = stationary start
-        c["x0_mode"] = rng.choice(["fixed", "prior"] + (["stationary"] * 2 if proc == "ou" else []))
+        c["x0_mode"] = x0_mode or rng.choice(["fixed", "prior"] + (["stationary"] * 2 if proc == "ou" else []))
         c["x0_std"] = [rs(dyadic(rng, 0.25, 2, 2)) for _ in range(d)]
         c["xi_x0"] = [rs(dyadic(rng, -2, 2, 2)) for _ in range(d)]
     c["x0"] = [rs(dyadic(rng, -2, 2, 2)) for _ in range(d)]
@@ -407,11 +407,14 @@ def _flat_model(c, out):
 
 def run(ctx):
     rng = ctx.rng
-    ncases = ctx.n(30, 400)
+    ncases = ctx.n(24, 400)
     cases = [gen_case(rng, ctx.quick) for _ in range(ncases)]
-    # make sure every process is present in every mode
-    for p in ("wiener", "iwp", "ou", "gm"):
-        cases.append(gen_case(rng, ctx.quick, proc=p))
+    # make sure every process is present in every mode, with genuinely time-varying parameters
+    cases.append(gen_case(rng, ctx.quick, proc="gm"))
+    for p in ("wiener", "iwp", "ou"):
+        cases.append(gen_case(rng, ctx.quick, proc=p, wrapper=False, arrays=True))
+        for mode in ("fixed", "prior") + (("stationary",) if p == "ou" else ()):
+            cases.append(gen_case(rng, ctx.quick, proc=p, wrapper=True, x0_mode=mode, arrays=True))
     # ---- model requests: one affine evaluation + one per basis excitation (x0 = 0) ⇒ the model's A
     lines, index = [], []
     for ci, c in enumerate(cases):
